@@ -62,6 +62,7 @@ def stepQ (toks : List String) : String :=
   | ["go", s] => match ofHex s with | some s => toHex (goQuote isPrintTable s) | none => "bad-op"
   | ["json", s] => match ofHex s with | some s => toHex (jsonQuote s) | none => "bad-op"
   | ["unq", s] => match ofHex s with | some s => optHex (goUnquote s) | none => "bad-op"
+  | ["junq", s] => match ofHex s with | some s => optHex (jsonUnquote s) | none => "bad-op"
   | _ => "bad-op"
 
 end Logg.Drive.C17
